@@ -46,7 +46,8 @@ def cases(tier, seed):
                    source=rnd.choice(['ds', 'ds', 'file']), nclients=nclients,
                    nstores=rnd.randint(1, 3), same_uid=rnd.random() < 0.5,
                    outcome=rnd.choice(['success', 'success', 'warning', 'failure', 'raise']),
-                   size=rnd.choice([0, 10, 100, 900, 4000]), fault=fault, seed=seed * 100003 + i)
+                   size=rnd.choice([0, 10, 100, 900, 4000]), fault=fault, align=rnd.random() < 0.35,
+                   seed=seed * 100003 + i)
 
 
 def make_ds(rnd, uid_, sop, size):
@@ -175,6 +176,15 @@ def run_case(case):
                     c, k, rnd.randrange(10 ** 6))
                 sop = rnd.choice([CT, MR])
                 ds = make_ds(rnd, uid_, sop, case['size'] + rnd.choice([0, 1, 2]))
+                if case.get('align'):
+                    # make the encoded data set an exact multiple of the fragment payload
+                    frag = min(case['cmax'], case['smax']) - 6
+                    base = len(enc(ds, ts))
+                    delta = (-base) % frag
+                    if delta % 2 == 0:
+                        ds.ImageComments = str(getattr(ds, 'ImageComments', '')) + 'z' * delta
+                        if len(ds.ImageComments) % 2:
+                            ds.ImageComments = ds.ImageComments + 'zz'[:1]
                 stores.append((uid_, sop, ds))
             plans.append(stores)
 
